@@ -18,6 +18,7 @@ import (
 	"errors"
 	"fmt"
 	"math/rand"
+	"os"
 	"sync/atomic"
 
 	sentinel "github.com/alibaba/sentinel-golang/api"
@@ -326,6 +327,13 @@ var mods = []*mod{flowMod(), isoMod(), hotMod(), cbMod(), sysMod()}
 
 func gen(rng *rand.Rand) *caseDesc {
 	gm := mods[rng.Intn(len(mods))]
+	if only := os.Getenv("VERIF_RULESCO_MODULE"); only != "" { // (run for another property: that property's module only)
+		for _, m := range mods {
+			if m.name == only {
+				gm = m
+			}
+		}
+	}
 	c := &caseDesc{Module: gm.name}
 	ver := 0
 	upd := func() stepD {
